@@ -1064,8 +1064,6 @@ func (a *A) ruleInPlaceFilter(pkgs ...string) int {
 				if l.X == nil || TermOf(l.X, nil).String() != baseT {
 					continue
 				}
-				n++
-				construct := fname(fn) + "#in-place-filter"
 				isApp := func(in ssa.Instruction) bool {
 					c, ok := in.(*ssa.Call)
 					if !ok {
@@ -1074,6 +1072,20 @@ func (a *A) ruleInPlaceFilter(pkgs ...string) int {
 					cc, ok := isBuiltinCall(c, "append")
 					return ok && alias[cc.Args[0]]
 				}
+				// only a loop that writes into the shared backing array is an in-place filter
+				writes := false
+				for b := range l.Blocks {
+					for _, in := range b.Instrs {
+						if isApp(in) {
+							writes = true
+						}
+					}
+				}
+				if !writes {
+					continue
+				}
+				n++
+				construct := fname(fn) + "#in-place-filter"
 				// max number of aliasing appends on a path through one iteration (2 = "two or more")
 				memo := map[*ssa.BasicBlock]int{}
 				onStack := map[*ssa.BasicBlock]bool{}
@@ -1125,6 +1137,48 @@ func (a *A) ruleInPlaceFilter(pkgs ...string) int {
 						}
 					}
 				}
+				// the compaction must be committed: once the loop has shifted elements down inside the
+				// shared backing array, the owner (a field) has to be set to the compacted slice on every
+				// path to a return, or it keeps its old length over half-shifted contents (trailing
+				// elements duplicated)
+				if fa := fieldAddrOfLoad(s0.X); fa != nil {
+					isCommit := func(in ssa.Instruction) bool {
+						st, ok := in.(*ssa.Store)
+						if !ok {
+							return false
+						}
+						sfa, ok := st.Addr.(*ssa.FieldAddr)
+						return ok && sfa.Field == fa.Field && sfa.X == fa.X && alias[st.Val]
+					}
+					var uncommitted ssa.Instruction
+					for b := range l.Blocks {
+						for _, sc := range b.Succs {
+							if l.Blocks[sc] || sc == l.Header {
+								continue
+							}
+							if x := pathToExitAvoiding(sc.Instrs[0], isCommit, false); x != nil {
+								uncommitted = x
+							}
+						}
+					}
+					for _, sc := range l.Header.Succs {
+						if !l.Blocks[sc] && sc != l.Body {
+							if len(sc.Instrs) > 0 {
+								if isCommit(sc.Instrs[0]) {
+									continue
+								}
+								if x := pathToExitAvoiding(sc.Instrs[0], isCommit, false); x != nil {
+									uncommitted = x
+								}
+							}
+						}
+					}
+					if uncommitted != nil {
+						a.Bad(construct+"-committed", uncommitted.Pos(), "after compacting %s in place the function can return (here) without storing the compacted slice back: the field keeps its old length over half-shifted contents, so trailing rows are duplicated", baseT)
+					} else {
+						a.Ok(construct+"-committed", s0.Pos(), "the compacted slice is stored back on every path to a return")
+					}
+				}
 				a.Check(cnt <= 1 && !inner, construct, s0.Pos(),
 					"at most one element is appended to the re-used backing array per element read",
 					fmt.Sprintf("%s re-uses the backing array of %s while ranging over it and can append more than one element for one element read (%d on one path%s): the extra element overwrites an element that has not been read yet", s0.Name(), baseT, cnt, map[bool]string{true: ", inside an inner loop", false: ""}[inner]))
@@ -1132,4 +1186,13 @@ func (a *A) ruleInPlaceFilter(pkgs ...string) int {
 		})
 	}
 	return n
+}
+
+// fieldAddrOfLoad: for a load *(&x.f) the FieldAddr, else nil.
+func fieldAddrOfLoad(v ssa.Value) *ssa.FieldAddr {
+	if u, ok := v.(*ssa.UnOp); ok && u.Op == token.MUL {
+		fa, _ := u.X.(*ssa.FieldAddr)
+		return fa
+	}
+	return nil
 }
